@@ -340,6 +340,11 @@ impl<'c, 's> Run<'c, 's> {
             self.st.triples.insert((kind, if n > 8 { b[8] } else { 0xEE }, alt));
         }
         let resp_before = self.nodes[ni].resp.clone();
+        let eids_before = {
+            use libmctp::mctp_traits::SMBusMCTPRequestResponse;
+            let nd = &self.nodes[ni];
+            (nd.ctx.get_request().get_eid(), nd.ctx.get_response().get_eid())
+        };
         let n_sets = self.nodes[ni].cfg.vplain.len();
         let own = self.nodes[ni].cfg.addr;
         self.ev("deliver", &[ni as u64, fi.map(|f| f as u64).unwrap_or(9999)], &b);
@@ -396,12 +401,11 @@ impl<'c, 's> Run<'c, 's> {
                 let nd = &self.nodes[ni];
                 (nd.ctx.get_request().get_eid(), nd.ctx.get_response().get_eid())
             };
-            let (mq, ms) = (self.nodes[ni].m_eid_req, self.nodes[ni].m_eid_resp);
-            if matches!(mq, Some(m) if m != rq) || matches!(ms, Some(m) if m != rs) {
+            if (rq, rs) != eids_before {
                 self.viol(
                     Prop::C02,
                     "C02/effect/eid".into(),
-                    format!("EID changed to req={:#04x}/resp={:#04x} (was {:?}/{:?}) by bad-PEC input {}", rq, rs, mq, ms, hex(&b)),
+                    format!("EID changed from req={:#04x}/resp={:#04x} to req={:#04x}/resp={:#04x} by bad-PEC input {}", eids_before.0, eids_before.1, rq, rs, hex(&b)),
                 );
             }
         }
@@ -478,7 +482,7 @@ impl<'c, 's> Run<'c, 's> {
             Some(l) if l <= self.nodes[ni].resp.len() => self.nodes[ni].resp[..l].to_vec(),
             _ => Vec::new(),
         };
-        if accepted_req && pr.cmd == 0x01 && n == 14 {
+        if accepted_req && pr.cmd == 0x01 && n >= 14 {
             let (op, e) = (b[11], b[12]);
             if op == 0 || op == 1 {
                 cause = "after-assignment";
